@@ -2,8 +2,10 @@ SPECIFICATION Spec
 CONSTANTS
   Tier = "quick"
   MaxN = 2
-  UaVals = {0, 1, 3}
-  PvVals = {0, 1, 3}
+  UaVals = {1, 3}
+  PvVals = {0, 3}
   ChpVals = {0, 2}
-INVARIANTS Check CheckK CheckPrio CheckRer CheckStrip
+  SubVals = {2, 3}
+  ScaleVals = {3}
+INVARIANTS CheckLayout
 CHECK_DEADLOCK FALSE
